@@ -109,6 +109,7 @@ type Sim struct {
 	M       *Model
 	ids     [NumTypes]ecs.ID
 	pads    []ecs.ID
+	scratch *ecs.World  // a second world of the process (observer objects that served another world)
 	resPads []ecs.ResID // dynamically registered resource types (C18)
 
 	filters   []*FilterInst
@@ -419,6 +420,12 @@ var relArgCache = map[string][]ecs.Relation{}
 // reverse order: a world that ran in the same process before, with other component IDs.
 func PollutedCfg(cfg Config) Config {
 	out := cfg
+	// other initial capacities as well: explicit ones where the history uses the defaults
+	if cfg.Cap <= 0 {
+		out.Cap, out.RelCap = 3, 2
+	} else {
+		out.Cap, out.RelCap = cfg.Cap+5, 0
+	}
 	out.Perm = make([]int, NumTypes)
 	for i := range out.Perm {
 		if len(cfg.Perm) == NumTypes {
